@@ -701,6 +701,51 @@ def route_dir(ctx, model, case, samples, ans, cfg):
     return out
 
 
+def db_summary_rewritten(ctx, model, case):
+    """a database fit whose samples summary is saved more than once (every result update of a search, a resume):
+    what loads back - in the same session and in a new one - is the summary saved last"""
+    spec = case["samples"]
+    if len(spec["rows"]) < 2:
+        return
+    spec2 = dict(spec, rows=list(reversed(spec["rows"]))[: max(1, len(spec["rows"]) - 1)])
+    st, both = attempt(lambda: (build_samples(model, spec), build_samples(model, spec2)))
+    if st == "err":
+        return
+    st, summs = attempt(lambda: (both[0].summary(), both[1].summary()))
+    if st == "err":
+        return
+    tag = fresh_name()
+    s = session()
+    case2 = dict(case, samples=spec2, resaved=True)
+    try:
+        paths = DatabasePaths(session=s, save_all_samples=True, unique_tag=tag)
+        paths.model = model
+        st, e = attempt(lambda: (paths.save_samples_summary(summs[0]), s.commit(), paths.load_samples_summary(),
+                                 paths.save_samples_summary(summs[1]), s.commit()))
+        if st == "err":
+            ctx.hit("db-summary-rewrite:save-rejected")
+            return
+        ctx.hit("route:db-summary-written-again")
+        tr2 = truth(model, spec2, best=own_best(both[1], both[1]))
+        st, got = attempt(paths.load_samples_summary)
+        if st == "err":
+            ctx.fail(classify(model, case2, "summary-raises", "db"), "db: loading a samples summary saved a second time raises", dict(case2, route="db:summary-again"), got)
+        else:
+            check_summary(ctx, model, case2, "db:summary-again", got, summs[1], tr2)
+        s.close()
+        s = session()
+        p2 = DatabasePaths(session=s, save_all_samples=True, unique_tag=tag)
+        p2.model = model
+        st, got = attempt(p2.load_samples_summary)
+        if st == "err":
+            ctx.fail(classify(model, case2, "summary-raises", "db"), "db: loading a samples summary saved a second time raises (new session)",
+                     dict(case2, route="db:summary-again-new-session"), got)
+        else:
+            check_summary(ctx, model, case2, "db:summary-again-new-session", got, summs[1], tr2)
+    finally:
+        s.close()
+
+
 def route_db(ctx, model, case, samples, save_all):
     spec = case["samples"]
     tag = fresh_name()
@@ -805,6 +850,20 @@ def route_fit(ctx, model, case):
         holder["samples"] = build_samples(m, spec)
         return holder["samples"]
 
+    # output settings: with remove_files the finished fit is kept as an archive only and the re-run reads it back
+    zipped = ctx.rng.random() < 0.35
+    output_cfg = conf.instance["general"]["output"]
+    keep_setting = output_cfg["remove_files"]
+    if zipped:
+        output_cfg["remove_files"] = True
+        ctx.hit("fit:remove_files")
+    try:
+        return _route_fit(ctx, model, case, spec, name, prefix, holder, script, zipped)
+    finally:
+        output_cfg["remove_files"] = keep_setting
+
+
+def _route_fit(ctx, model, case, spec, name, prefix, holder, script, zipped):
     st, r1 = attempt(lambda: ScriptedSearch(script=script, name=name, path_prefix=prefix).fit(model, ConstAnalysis()))
     if st == "err":
         ctx.hit("fit:rejected:" + r1.split(":")[0])
@@ -829,6 +888,8 @@ def route_fit(ctx, model, case):
             check_loaded(ctx, model, case, "fit:rerun", r2.samples, tr, exp)
         if summ0 is not None:
             check_summary(ctx, model, case, "fit:rerun-summary", r2.samples_summary, summ0, tr_all)
+    if zipped:
+        return
     out_dir = Path(conf.instance.output_path) / prefix
     st, agg = attempt(DirAggregator.from_directory, out_dir)
     if st == "err" or len(agg) != 1:
@@ -1268,6 +1329,8 @@ def one_case(ctx, case, cfg, label="gen"):
         dir_out = route_dir(ctx, model, case, samples, None, cfg)
     if "db" in case["routes"]:
         db_out = route_db(ctx, model, case, samples, True)
+        if ctx.rng.random() < 0.4:
+            db_summary_rewritten(ctx, model, case)
     if "db-min" in case["routes"]:
         route_db(ctx, model, case, samples, False)
     if "fit" in case["routes"]:
